@@ -13,7 +13,7 @@ func init() {
 	register(&Def{
 		ID:    "C20",
 		Level: "exploration",
-		Rule: "finite grid of degenerate allocators (Channels in 0..3, Length in 0..2, Capacity in 0..4 with at least one of them 0, L<=K) x element types x every exported entry point " +
+		Rule: "finite grid of degenerate allocators (Channels in 0..3, Length in 0..2, Capacity in 0..4 with at least one of them 0, L<=K) x element types x every exported entry point (every other zero-length buffer with capacity is a recycled one: handed out by a pool, filled sample by sample, put back, handed out again) " +
 			"(shape accessors, Read/Write/ReadStriped/WriteStriped over type pairs, the nine conversions as source and as destination, AppendSample, Append(empty), Slice(0,0), ChannelLength(n,0)); " +
 			"a case = one entry point on one degenerate buffer; distinct = distinct (entry point, instantiation, allocator, argument) tuples; all are non-trivial (each one executes library code on a degenerate shape)",
 		Assume:    []string{"ChannelLength(n,0) is accepted when it does not panic and returns a count in [0,n]"},
@@ -77,7 +77,25 @@ func runC20(c *core.Ctx) {
 				continue
 			}
 			d := map[string]any{"type": t.Name, "allocator": []int{g.ch, g.l, g.k}}
-			mk := func() dyn.Buf { return t.Alloc(signal.Allocator{Channels: g.ch, Length: g.l, Capacity: g.k}) }
+			mk := func() dyn.Buf {
+				a := signal.Allocator{Channels: g.ch, Length: g.l, Capacity: g.k}
+				if !zeroShape && g.l == 0 && (gi+ti)%2 == 1 {
+					// the zero-length buffer is a recycled one: it was handed out by a
+					// pool, filled sample by sample, put back and handed out again
+					// (whatever a used buffer remembers must not show)
+					pool := t.PoolAlloc(a)
+					for i := 0; i < 3; i++ {
+						u := pool.Get()
+						for j := 0; j < g.ch*g.k-1; j++ {
+							u.AppendSample(t.FromInt(int64(1 + j%100)))
+						}
+						pool.Put(u)
+					}
+					c.Obs("zero_length_buffers_recycled_through_a_pool_after_use", 1)
+					return pool.Get()
+				}
+				return t.Alloc(a)
+			}
 			var b dyn.Buf
 			if p, msg := core.Guard(func() { b = mk() }); p {
 				c.Violate("Alloc["+t.Name+"]|panic", base, "Alloc panicked: "+msg, d)
